@@ -53,10 +53,9 @@ VDiffDL(r) ==
   ELSE IF \E i \in 1..Len(pts) : \E j \in 1..Len(all) :
             all[j] # pts[i] /\ Dist(pts[i], all[j]) < r.args.maxdiff /\ ~r.obs.found[i]
        THEN "DiffComplete"
-  \* a key whose every partner is identical to it, or far away (beyond the table actually cached), is not flagged
-  ELSE IF \E i \in 1..Len(pts) : r.obs.found[i] /\
-            (\A j \in 1..Len(all) : all[j] = pts[i] \/ Dist(pts[i], all[j]) >= r.args.tablespan)
-       THEN "DiffNoFarAccusation"
+  \* identical keys are not flagged: a key all of whose partners are copies of itself stays silent
+  ELSE IF \E i \in 1..Len(pts) : r.obs.found[i] /\ (\A j \in 1..Len(all) : all[j] = pts[i])
+       THEN "IdenticalKeysNotFlagged"
   ELSE "ok"
 
 (* ---- C09 ---- *)
